@@ -3,6 +3,7 @@ package fscache
 import (
 	"os"
 	"path"
+	"strings"
 	"sync"
 
 	"github.com/goatcms/goatcore/filesystem"
@@ -27,9 +28,8 @@ type cacheHistory struct {
 	// A remote node is hidden if its path or path of one of its ancestors is in the set.
 	remove     map[string]bool
 	mkdirAllMU sync.RWMutex
-	mkdirAll   map[string]os.FileMode
-	writeMU    sync.RWMutex
-	write      map[string]bool
+	// mkdirAll contains modes of directories created by MkdirAll
+	mkdirAll map[string]os.FileMode
 }
 
 // newCache create new chache for remoteFS (use exists buffer filespace)
@@ -41,7 +41,6 @@ func newCache(bufferFS, remoteFS filesystem.Filespace) *Cache {
 		changes: cacheHistory{
 			remove:   map[string]bool{},
 			mkdirAll: map[string]os.FileMode{},
-			write:    map[string]bool{},
 		},
 	}
 }
@@ -60,15 +59,12 @@ func (c *Cache) Buffer() filesystem.Filespace {
 	return c.bufferRO
 }
 
-// Commit send buffered changes to remote filesystem
+// Commit send buffered changes to remote filesystem.
+// It removes removed nodes and next sends the whole buffer tree.
 func (c *Cache) Commit() (err error) {
-	var (
-		src      string
-		filemode os.FileMode
-	)
-	c.changes.removeMU.RLock()
-	defer c.changes.removeMU.RUnlock()
-	for src = range c.changes.remove {
+	c.changes.removeMU.Lock()
+	defer c.changes.removeMU.Unlock()
+	for src := range c.changes.remove {
 		if c.remoteFS.IsExist(src) {
 			if err = c.remoteFS.RemoveAll(src); err != nil {
 				return err
@@ -77,23 +73,39 @@ func (c *Cache) Commit() (err error) {
 	}
 	c.changes.mkdirAllMU.RLock()
 	defer c.changes.mkdirAllMU.RUnlock()
-	for src, filemode = range c.changes.mkdirAll {
-		if c.bufferFS.IsDir(src) {
-			if err = c.remoteFS.MkdirAll(src, filemode); err != nil {
-				return err
-			}
-		}
+	if err = c.commitDir("."); err != nil {
+		return err
 	}
-	c.changes.writeMU.RLock()
-	defer c.changes.writeMU.RUnlock()
-	for src = range c.changes.write {
-		if err = c.remoteFS.MkdirAll(path.Dir(src), filesystem.DefaultUnixDirMode); err != nil {
-			return err
+	c.changes.remove = map[string]bool{}
+	return nil
+}
+
+// commitDir send nodes of a buffered directory to remote filesystem (recursively)
+func (c *Cache) commitDir(dir string) (err error) {
+	var nodes []os.FileInfo
+	if nodes, err = c.bufferFS.ReadDir(dir); err != nil {
+		return err
+	}
+	for _, node := range nodes {
+		if node.Name() == "." || node.Name() == ".." {
+			continue
 		}
-		if c.bufferFS.IsFile(src) {
+		src := path.Join(dir, node.Name())
+		if !node.IsDir() {
 			if err = fshelper.StreamCopy(c.bufferFS, c.remoteFS, src); err != nil {
 				return err
 			}
+			continue
+		}
+		filemode, ok := c.changes.mkdirAll[src]
+		if !ok {
+			filemode = filesystem.DefaultUnixDirMode
+		}
+		if err = c.remoteFS.MkdirAll(src, filemode); err != nil {
+			return err
+		}
+		if err = c.commitDir(src); err != nil {
+			return err
 		}
 	}
 	return nil
@@ -127,11 +139,10 @@ func (c *Cache) isRemoved(src string) bool {
 func (c *Cache) Copy(src, dest string) error {
 	src = varutil.CleanPath(src)
 	dest = varutil.CleanPath(dest)
-	c.changeWrite(dest, true)
 	return (fshelper.Copier{
 		SrcFS:    c,
 		SrcPath:  src,
-		DestFS:   c.bufferFS,
+		DestFS:   c,
 		DestPath: dest,
 	}).Do()
 }
@@ -144,7 +155,6 @@ func (c *Cache) CopyDirectory(src, dest string) error {
 	if !srcFS.IsDir(src) {
 		return goaterr.Errorf("Source node must be a directory")
 	}
-	c.changeWrite(dest, true)
 	return c.Copy(src, dest)
 }
 
@@ -156,7 +166,6 @@ func (c *Cache) CopyFile(src, dest string) error {
 	if !srcFS.IsFile(src) {
 		return goaterr.Errorf("Source node must be a file")
 	}
-	c.changeWrite(dest, true)
 	return c.Copy(src, dest)
 }
 
@@ -213,8 +222,14 @@ func (c *Cache) IsDir(src string) bool {
 }
 
 // MkdirAll create directory recursively
-func (c *Cache) MkdirAll(dest string, filemode os.FileMode) error {
+func (c *Cache) MkdirAll(dest string, filemode os.FileMode) (err error) {
 	dest = varutil.CleanPath(dest)
+	if dest == "." || dest == "" {
+		return nil
+	}
+	if err = c.checkDest(dest, true); err != nil {
+		return err
+	}
 	c.changeMkdirAll(dest, filemode)
 	return c.bufferFS.MkdirAll(dest, filemode)
 }
@@ -222,7 +237,9 @@ func (c *Cache) MkdirAll(dest string, filemode os.FileMode) error {
 // Writer return a file node writer
 func (c *Cache) Writer(dest string) (filesystem.Writer, error) {
 	dest = varutil.CleanPath(dest)
-	c.changeWrite(dest, true)
+	if err := c.checkDest(dest, false); err != nil {
+		return nil, err
+	}
 	return c.bufferFS.Writer(dest)
 }
 
@@ -242,7 +259,10 @@ func (c *Cache) ReadFile(src string) ([]byte, error) {
 
 // WriteFile write file data
 func (c *Cache) WriteFile(dest string, data []byte, perm os.FileMode) error {
-	c.changeWrite(dest, true)
+	dest = varutil.CleanPath(dest)
+	if err := c.checkDest(dest, false); err != nil {
+		return err
+	}
 	return c.bufferFS.WriteFile(dest, data, perm)
 }
 
@@ -300,13 +320,32 @@ func (c *Cache) Lstat(src string) (os.FileInfo, error) {
 	return srcFS.Lstat(src)
 }
 
-func (c *Cache) changeWrite(dest string, value bool) {
-	c.changes.writeMU.Lock()
-	defer c.changes.writeMU.Unlock()
-	c.changes.write[dest] = value
+// checkDest return error if a file (isDir is false) or a directory (isDir is true)
+// can not be created in the (clean) path because of nodes visible by the cache:
+// one of ancestors is a file or the node exists and has the other type
+func (c *Cache) checkDest(dest string, isDir bool) error {
+	for i := 1; i < len(dest); i++ {
+		if dest[i] == '/' && c.IsFile(dest[:i]) {
+			return goaterr.Errorf("Node %s must be a directory", dest[:i])
+		}
+	}
+	if isDir && c.IsFile(dest) {
+		return goaterr.Errorf("Node %s must be a directory", dest)
+	}
+	if !isDir && c.IsDir(dest) {
+		return goaterr.Errorf("Node %s must be a file", dest)
+	}
+	return nil
 }
 
 func (c *Cache) changeRemove(dest string, value bool) {
+	c.changes.mkdirAllMU.Lock()
+	for src := range c.changes.mkdirAll {
+		if src == dest || strings.HasPrefix(src, dest+"/") {
+			delete(c.changes.mkdirAll, src)
+		}
+	}
+	c.changes.mkdirAllMU.Unlock()
 	c.changes.removeMU.Lock()
 	defer c.changes.removeMU.Unlock()
 	c.changes.remove[dest] = value
